@@ -62,10 +62,19 @@ func Load(repo, tier string, overlay map[string][]byte) (*Ctx, error) {
 	if tier == "thorough" {
 		pats = append(pats, ThoroughExtra...)
 	}
+	// go/packages resolves the go command through this process's PATH; /repo needs go >= 1.24.1
+	// and the newer toolchain is pre-installed beside the default one
+	if p := os.Getenv("PATH"); !strings.HasPrefix(p, "/opt/veriftools/go1.26.8/bin") {
+		os.Setenv("PATH", "/opt/veriftools/go1.26.8/bin:"+p)
+	}
 	env := []string{}
 	for _, e := range os.Environ() {
 		if strings.HasPrefix(e, "GOWORK=") || strings.HasPrefix(e, "GOFLAGS=") {
 			continue
+		}
+		if strings.HasPrefix(e, "PATH=") {
+			// /repo needs go >= 1.24.1; the newer toolchain is pre-installed beside the default one
+			e = "PATH=/opt/veriftools/go1.26.8/bin:" + strings.TrimPrefix(e, "PATH=")
 		}
 		env = append(env, e)
 	}
@@ -301,14 +310,21 @@ func (c *Ctx) SSAFunc(rel, name string) *ssa.Function {
 			panic(Infra("type " + rel + "." + recv + " not found"))
 		}
 		var t types.Type = tm.Type()
-		for _, tt := range []types.Type{types.NewPointer(t), t} {
-			_ = ptr
+		_ = ptr
+		var synthetic *ssa.Function
+		for _, tt := range []types.Type{t, types.NewPointer(t)} {
 			sel := c.prog.MethodSets.MethodSet(tt).Lookup(p.Pkg, m)
 			if sel != nil {
 				if f := c.prog.MethodValue(sel); f != nil {
-					return f
+					if f.Synthetic == "" {
+						return f
+					}
+					synthetic = f
 				}
 			}
+		}
+		if synthetic != nil {
+			return synthetic
 		}
 		panic(Infra("method " + rel + "." + name + " not found"))
 	}
